@@ -134,28 +134,31 @@ theorem gen_ldd_downstream_idx_eq_model (nrow ncol : Nat) (codes : Array Nat) (i
   · simp_all
     grind
 
+set_option linter.unusedSimpArgs false in
 /-- the out-of-raster answer is whatever `mv` the caller passes (the library passes `core._mv`) -/
 theorem gen_d8_downstream_idx_mv (nrow ncol : Nat) (codes : Array Nat) (idx0 : Nat) (mv : Int)
     (hc : codes[idx0]! < 256) (hout : Fd.downstreamIdxD8 nrow ncol codes idx0 = nrow * ncol) :
     Fn.d8_downstream_idx idx0 (fun i => codes[i.toNat]!) (nrow, ncol) mv = mv := by
   have h0 := gen_d8_downstream_idx_eq_model nrow ncol codes idx0 hc
+  rw [hout] at h0
+  have hmul : ((nrow * ncol : Nat) : Int) = (nrow : Int) * ncol := Int.natCast_mul _ _
   simp only [Fn.d8_downstream_idx] at h0 ⊢
-  split
-  · rename_i hif
-    rw [if_pos hif] at h0
-    simp only [Bool.and_eq_true, decide_eq_true_eq] at hif
-    -- in range: c + r * ncol < nrow * ncol, so the model cannot have answered nrow * ncol
-    exfalso
-    rw [hout] at h0
-    have : ((nrow * ncol : Nat) : Int) = (nrow : Int) * ncol := Int.natCast_mul _ _
-    generalize Int.fdiv (idx0 : Int) ncol + _ = r at *
-    generalize Int.fmod (idx0 : Int) ncol + _ = c at *
-    have hr : r + 1 ≤ (nrow : Int) := by omega
-    have h3 : (r + 1) * (ncol : Int) ≤ nrow * ncol := Int.mul_le_mul_of_nonneg_right hr (Int.natCast_nonneg _)
-    have h4 : (r + 1) * (ncol : Int) = r * ncol + ncol := by rw [Int.add_mul, Int.one_mul]
-    have h5 := Int.mul_comm (ncol : Int) r
-    omega
-  · rfl
+  generalize Int.fdiv (idx0 : Int) ncol + _ = r at *
+  generalize Int.fmod (idx0 : Int) ncol + _ = c at *
+  -- whichever way the source writes the bounds test (in-range first, or out-of-range with an early return): in the
+  -- out-of-range branch the answer is `mv` itself; the in-range branch is impossible, because there the model (equal to the
+  -- generated value for the particular `mv = nrow * ncol`, `h0`) would have answered `c + r * ncol < nrow * ncol`
+  split <;> rename_i hif <;> first
+    | rfl
+    | (exfalso
+       simp only [hif, if_true, if_false, if_pos, if_neg, not_true_eq_false, not_false_eq_true, Bool.false_eq_true] at h0
+       simp only [Bool.and_eq_true, Bool.or_eq_true, decide_eq_true_eq, not_or, Int.not_lt, Int.not_le, ge_iff_le,
+         Bool.not_eq_true, Bool.or_eq_false_iff, decide_eq_false_iff_not] at hif
+       have hr : r + 1 ≤ (nrow : Int) := by omega
+       have h3 : (r + 1) * (ncol : Int) ≤ nrow * ncol := Int.mul_le_mul_of_nonneg_right hr (Int.natCast_nonneg _)
+       have h4 : (r + 1) * (ncol : Int) = r * ncol + ncol := by rw [Int.add_mul, Int.one_mul]
+       have h5 := Int.mul_comm (ncol : Int) r
+       omega)
 
 example : Fn.d8_downstream_idx 4 (fun i => (#[0, 1, 2, 4, 8, 16, 32, 64, 128] : Array Nat)[i.toNat]!) (3, 3) 9 = 6 ∧
     Fn.d8_downstream_idx 2 (fun i => (#[0, 1, 2, 4, 8, 16, 32, 64, 128] : Array Nat)[i.toNat]!) (3, 3) 9 = 9 ∧
